@@ -1,4 +1,4 @@
-// C09 extractor, second stage (module C09Up):
+// C09 extractor, second stage (modules C09Up, C09Rot):
 //  * rotationMatrixWithUpDir with alignZAxisWithTargetDir as an OPAQUE call of Gen `Frame.alignZAxisWithTargetDir`
 //    (60 paths, extracted with its real body by sym_c09.cpp; inlined twice it gives 1201 paths);
 //  * rotationMatrix(from,to) with Quat::setRotation(from,to) as an OPAQUE call of Gen `Frame.quatSetRotation` (89 paths,
@@ -42,5 +42,5 @@ using namespace IMATH_INTERNAL_NAMESPACE;
 #define IN(Ty, n) auto n = c.template in<Ty<T>> (#n)
 EXTRACT ("C09Up", fr_rotationMatrixUp, "Frame.rotationMatrixWithUpDir",
          { IN (Vec3, fromDir); IN (Vec3, toDir); IN (Vec3, upDir); c.out (rotationMatrixWithUpDir (fromDir, toDir, upDir)); })
-EXTRACT ("C09Up", fr_rotationMatrix, "Frame.rotationMatrix", { IN (Vec3, fromDir); IN (Vec3, toDir); c.out (rotationMatrix (fromDir, toDir)); })
+EXTRACT ("C09Rot", fr_rotationMatrix, "Frame.rotationMatrix", { IN (Vec3, fromDir); IN (Vec3, toDir); c.out (rotationMatrix (fromDir, toDir)); })
 int main (int argc, char** argv) { return symns::sym_main (argc, argv); }
